@@ -132,7 +132,7 @@ pub fn c08_repr_n3() {
     repr::<3>(-4, 8);
 }
 
-// @verif prop=C08 tier=thorough fl=f2 role=dense/array t=3600 mem=24
+// @verif prop=C08 tier=exp fl=f2 role=dense/array t=3600 mem=24
 #[cfg_attr(kani, kani::proof)]
 #[cfg_attr(kani, kani::unwind(18))]
 pub fn c08_dense_n4() {
